@@ -22,6 +22,7 @@ use GDErrorKind::*;
 /*@ include path=std_assumed.rs @*/
 /*@ include path=alloc_model.rs @*/
 /*@ include path=text_model.rs @*/
+/*@ include path=ue2_model.rs @*/
 
 /*@ item file=crates/lib/src/buffer.rs kind=struct name=Buffer @*/
 
@@ -142,6 +143,9 @@ spec {
         D::is_utf8() ==> (r is Ok <==> utf8_ok(old(self).rest(), D::d0(delim_of::<D>(until))))
             && (r is Ok ==> r->Ok_0@ == utf8_txt(old(self).rest(), D::d0(delim_of::<D>(until)))
                          && final(self).rest() == tail_of(old(self).rest(), utf8_consumed(old(self).rest(), D::d0(delim_of::<D>(until))) as int)),
+        D::is_ue2() ==> (r is Ok <==> ue2_ok(old(self).rest(), D::d0(delim_of::<D>(until))))
+            && (r is Ok ==> r->Ok_0@ == ue2_txt(old(self).rest(), D::d0(delim_of::<D>(until)))
+                         && final(self).rest() == tail_of(old(self).rest(), ue2_consumed(old(self).rest(), D::d0(delim_of::<D>(until))) as int)),
         D::is_lp() ==> (r is Ok <==> lp_ok(old(self).rest(), D::d0(delim_of::<D>(until))))
             && (r is Ok ==> r->Ok_0@ == lp_txt(old(self).rest(), D::d0(delim_of::<D>(until)))
                          && final(self).rest() == tail_of(old(self).rest(), lp_consumed(old(self).rest(), D::d0(delim_of::<D>(until))) as int)),
@@ -151,6 +155,7 @@ body_start {
         assert(delim_of::<D>(until) == until.unwrap_or(D::DELIMITER));
         reveal(tail_of); reveal(Buffer::rest);
         D::lemma_is_lp(old(self).rest(), delim_of::<D>(until));
+        D::lemma_is_ue2(old(self).rest(), delim_of::<D>(until));
         D::lemma_is_utf8(old(self).rest(), delim_of::<D>(until));
     }
 }
@@ -330,6 +335,12 @@ pub trait StringDecoder {
         ensures Self::is_lp() ==> Self::consumed(data, d) == lp_consumed(data, Self::d0(d))
                                && Self::text(data, d) == lp_txt(data, Self::d0(d))
                                && Self::decodes(data, d) == lp_ok(data, Self::d0(d));
+    /// true for the Unreal 2 string decoder (plain model functions ue2_* in contracts/ue2_model.rs)
+    spec fn is_ue2() -> bool;
+    proof fn lemma_is_ue2(data: Seq<u8>, d: Self::Delimiter)
+        ensures Self::is_ue2() ==> Self::consumed(data, d) == ue2_consumed(data, Self::d0(d))
+                                && Self::text(data, d) == ue2_txt(data, Self::d0(d))
+                                && Self::decodes(data, d) == ue2_ok(data, Self::d0(d));
     /// wire form of a terminated string `txt` (encoder side of the reference model) and its side condition
     spec fn wire(txt: Seq<char>, d: Self::Delimiter) -> Seq<u8>;
     spec fn wire_ok(txt: Seq<char>, d: Self::Delimiter) -> bool;
@@ -370,6 +381,8 @@ impl StringDecoder for Utf8Decoder {
     proof fn lemma_is_utf8(data: Seq<u8>, d: [u8; 1]) { }
     open spec fn is_lp() -> bool { false }
     proof fn lemma_is_lp(data: Seq<u8>, d: [u8; 1]) { }
+    open spec fn is_ue2() -> bool { false }
+    proof fn lemma_is_ue2(data: Seq<u8>, d: [u8; 1]) { }
 /*@ item file=crates/lib/src/buffer.rs impl="impl StringDecoder for Utf8Decoder" kind=type name=Delimiter @*/
 /*@ item file=crates/lib/src/buffer.rs impl="impl StringDecoder for Utf8Decoder" kind=const name=DELIMITER @*/
     // reference model (property C17): consume the string and its delimiter, or the rest if unterminated
@@ -450,6 +463,8 @@ impl StringDecoder for Utf8LengthPrefixedDecoder {
     proof fn lemma_is_utf8(data: Seq<u8>, d: [u8; 1]) { }
     open spec fn is_lp() -> bool { true }
     proof fn lemma_is_lp(data: Seq<u8>, d: [u8; 1]) { }
+    open spec fn is_ue2() -> bool { false }
+    proof fn lemma_is_ue2(data: Seq<u8>, d: [u8; 1]) { }
     open spec fn consumed(data: Seq<u8>, d: [u8; 1]) -> nat { lp_consumed(data, d@[0]) }
     open spec fn text(data: Seq<u8>, d: [u8; 1]) -> Seq<char> { lp_txt(data, d@[0]) }
     open spec fn decodes(data: Seq<u8>, d: [u8; 1]) -> bool { lp_ok(data, d@[0]) }
@@ -515,6 +530,8 @@ impl<B: ByteOrder> StringDecoder for Utf16Decoder<B> {
     proof fn lemma_is_utf8(data: Seq<u8>, d: [u8; 2]) { }
     open spec fn is_lp() -> bool { false }
     proof fn lemma_is_lp(data: Seq<u8>, d: [u8; 2]) { }
+    open spec fn is_ue2() -> bool { false }
+    proof fn lemma_is_ue2(data: Seq<u8>, d: [u8; 2]) { }
     open spec fn consumed(data: Seq<u8>, d: [u8; 2]) -> nat {
         if first_pair_index(data, d@) < data.len() / 2 { (2 * first_pair_index(data, d@) + 2) as nat } else { data.len() }
     }
